@@ -135,3 +135,23 @@ plan("C16", "c16.py", "2-3 threads under a token-passing line scheduler x operat
      "recorded next to its own serializer is re-established at every exit of write / validate / serialize / reset / flushTracebacks including the "
      "exceptional ones. FileDestination.__call__ issues a single file.write per message. Real interleavings are explored by the bounded driver only.",
      "Trusted: threading.Lock mutual exclusion, atomicity of one file.write call, encoding assumptions.")
+
+plan("C06", "c06.py", "hand-off chains x carriers (thread/inline/subprocess) x id forms x sinks x merge orders; racing callers of one preserve_context callable (line-granular), on the real code",
+     "Proof: serialize_task_id returns ascii(uuid + '@' + levelstr(level ++ [POS+1])) and consumes exactly that position; TaskLevel.toString / "
+     "fromString are the level codec and its inverse; continue_task given such an id (bytes or text) returns a fresh started action with the same "
+     "task_uuid at exactly that level, its start message at position 1, and raises only for a missing or malformed id; preserve_context returns f "
+     "itself without a current action and otherwise reserves exactly one position; its closure calls f only while holding the token of an atomic "
+     "test-and-set on a lock that is never released (ghost-permission obligation at the call of f), raises TooManyCalls iff the lock was already "
+     "taken, and restores the context. Races and merge orders are explored by the bounded driver only; parsing of the merged logs is C09's part.",
+     "Trusted: string library axioms (split at '@', level codec inverse, ASCII) used as ground instances and cross-checked natively, "
+     "threading.Lock.acquire(False) atomic test-and-set, E13 rely at with-block exit, UserCode rely, encoding assumptions.")
+
+plan("C15", "c15.py", "generator bodies x driver contexts per resumption x send/throw/close scripts x nested decorated generators (+inline_callbacks via stub), on the real code",
+     "Proof: the wrapper of eliot_friendly_generator_function is executed as a reactive loop (every yield is a cut point with an arbitrary driver "
+     "step: any sent value, any thrown exception object of any class incl. GeneratorExit, any change of the driver's context): copy_context() "
+     "runs exactly once, before the loop; every gen.send / gen.throw happens inside context.run of that one Context object (ghost obligation at "
+     "each call site); what is yielded is exactly what the generator produced; the sent value / the very exception object is forwarded; "
+     "StopIteration(v) ends the wrapper with return value v; any other exception of the generator propagates unchanged; the driver's "
+     "CTX[me] after a resumption is what the driver left.",
+     "Trusted: generator protocol and Context.run / copy_context axioms, the rely on the driver (it cannot reach the private Context object), "
+     "debug mode off, Twisted's inlineCallbacks (absent: composition with it is exercised only through the stub in the driver).")
